@@ -1110,6 +1110,8 @@ THEOREMS = [
     "Dashu.Props.C11Powi.powi_neg_error",
     "Dashu.Props.C11Powi.powi_neg_half_lt_ulp",
     "Dashu.Props.C11Powi.coarseNone_sound",
+    "Dashu.Props.C11Powi.unlimited_step_exact",
+    "Dashu.Props.C11Powi.powi_unlimited_exact",
     "Dashu.Props.C11Formulas.iacoth_series",
     "Dashu.Props.C11Formulas.ln2_formula",
     "Dashu.Props.C11Formulas.ln10_formula",
@@ -1265,8 +1267,12 @@ FRONTIER = ["that the certificate succeeds on every input (i.e. that the heurist
             "(b) `Exact only if exact`: entry-guard theorems + expFull_exact_only_zero / lnFull_exact_only_shortcut on the mirror; "
             "powi: per input through the certificate (certPowi_decided); powf: powfBody_exact_only_base_one (see the last entry). (c) `unlimited precision is "
             "refused by panic`: exp_unlimited, ln_unlimited, powf_unlimited, powi_neg_unlimited; that powi with a NON-negative "
-            "exponent at unlimited precision answers exactly is checked per case (exact rational power), no theorem about the "
-            "mirrored loop at p = 0",
+            "exponent at unlimited precision answers exactly: PROVED in round 7 for the mirrored loop at working precision 0 "
+            "(C11Powi.powi_unlimited_exact: powLoop at q = 0 returns base^n and with_precision(0) returns it flagged Exact, "
+            "every base / mode / operand / n >= 1; unlimited_step_exact: each sqr / mul at precision 0 is exact and flagged "
+            "Exact, with or without the pre-shrink) and still checked per case (exact rational power). The arm "
+            "`else { Context::new(0) }` that selects q = 0 is NOT in the model def powiNonneg (it spells the limited arm only; "
+            "the driver does not mirror p = 0) nor in the tie.formula table: the theorem is about powLoop, the choice q = 0 is read off the source",
             "powf, Exact flag: PROVED on the mirror in round 6 (C11Series.powfBody_exact_only_base_one, powfBody_base_one, "
             "powfBody_exact_is_exact: a result flagged Exact has base 1 and is 1 = 1^y); this is about powfBody (behind the entry "
             "guards y = 0, y = 1, base = 0 of Props/C11), tied to the code per case"]
